@@ -48,6 +48,27 @@ Definition closed (c : chain) : Prop := forall i, i < size c -> ok_node c (get_n
 Definition head_shape (c : chain) (s : sig) (n : nat) : Prop :=
   get_node c n = NEmpty \/ exists ch, get_node c n = NDefine (fst s) (snd s) ch.
 
+(* a call to a user predicate points (through the redirects of the whole chain) at the node the
+   heads table currently gives for its signature *)
+Definition call_ok (c : chain) (n : node) : Prop :=
+  match n with
+  | NCall (FU f) a dn => exists h, get_head c (FU f, length a) = Some h /\ resolve c dn = h
+  | _ => True
+  end.
+
+Lemma call_ok_ext : forall c c' n, (forall s, get_head c' s = get_head c s) -> (forall i, resolve c' i = resolve c i) ->
+  call_ok c n -> call_ok c' n.
+Proof.
+  intros c c' n Hh Hr. destruct n; simpl; auto. destruct f; auto.
+  intros [h [H1 H2]]. exists h. rewrite Hh, Hr. split; assumption.
+Qed.
+
+Lemma resolve_same_redir : forall l l' p i, l_redir l' = l_redir l -> resolve (l' :: p) i = resolve (l :: p) i.
+Proof. intros l l' p i H. rewrite !resolve_cons, H. reflexivity. Qed.
+
+Lemma redir_get_nokey : forall r n, (forall v, ~ In (n, v) r) -> redir_get r n = n.
+Proof. intros r n H. destruct (redir_get_cases r n) as [E|E]; [exact E|]. exfalso. eapply H; eauto. Qed.
+
 Record Inv (p : chain) (l : layer) : Prop := mkInv {
   I_rok : redir_ok p l;
   I_h0 : forall s n, get_head (l :: p) s = Some n -> n < size (l :: p);
@@ -56,7 +77,9 @@ Record Inv (p : chain) (l : layer) : Prop := mkInv {
   I_w3 : forall s n v, get_head (l :: p) s = Some n -> ~ In (n, v) (l_redir l);
   I_cl : closed (l :: p);
   I_fresh : forall k a n, get_head (l :: p) (FBody k, a) = Some n -> k < size (l :: p);
-  I_err : l_err l = false
+  I_err : l_err l = false;
+  I_hres : forall s n, get_head (l :: p) s = Some n -> resolve (l :: p) n = n;
+  I_call : forall i, i < size (l :: p) -> call_ok (l :: p) (get_node (l :: p) i)
 }.
 
 Definition defs (c : chain) (s : sig) : list nat :=
@@ -113,10 +136,10 @@ Proof.
 Qed.
 
 Lemma Inv_app : forall p l n, Inv p l -> ok_node (fst (app_node p l n) :: p) n ->
-  (forall f a ch, n <> NDefine f a ch) ->
+  (forall f a ch, n <> NDefine f a ch) -> call_ok (l :: p) n ->
   Inv p (fst (app_node p l n)).
 Proof.
-  intros p l n I Hok Hnd. destruct I as [rok h0 h1 h3 w3 cl fresh err].
+  intros p l n I Hok Hnd Hcall. destruct I as [rok h0 h1 h3 w3 cl fresh err hres hcall].
   assert (Hfrm : frm (l :: p) (fst (app_node p l n) :: p)) by (intros j; apply fr_app_old; exact rok).
   constructor.
   - apply redir_ok_app. exact rok.
@@ -132,6 +155,11 @@ Proof.
     + eapply ok_node_frm; [exact Hfrm|]. apply cl. lia.
   - intros k a m Hm. rewrite get_head_app in Hm. apply fresh in Hm. rewrite size_app. lia.
   - exact err.
+  - intros s m Hm. rewrite get_head_app in Hm. apply hres in Hm. exact Hm.
+  - intros i Hi. rewrite size_app in Hi. rewrite get_node_app by assumption.
+    assert (Hx : forall x, call_ok (l :: p) x -> call_ok (fst (app_node p l n) :: p) x).
+    { intros x. apply call_ok_ext; reflexivity. }
+    destruct (Nat.eqb_spec i (size (l :: p))); apply Hx; [exact Hcall|]. apply hcall. lia.
 Qed.
 
 Lemma extN_app : forall N p l n, redir_ok p l -> extN N (l :: p) (fst (app_node p l n) :: p).
@@ -173,7 +201,7 @@ Lemma add_head_spec : forall p l s create,
   Inv p l -> (forall k a, s = (FBody k, a) -> k <= size (l :: p)) ->
   let '(l', i) := add_head p l s create in ah_post p l s create l' i.
 Proof.
-  intros p l s create I Hfb. pose proof I as I0. destruct I as [rok h0 h1 h3 w3 cl fresh err].
+  intros p l s create I Hfb. pose proof I as I0. destruct I as [rok h0 h1 h3 w3 cl fresh err hres hcall].
   unfold add_head. destruct (get_head (l :: p) s) as [n|] eqn:E.
   - (* the head exists *)
     destruct (create && (n <? size p)) eqn:C.
@@ -183,35 +211,53 @@ Proof.
       set (nd := NDefine (fst s) (snd s) ch).
       set (l1 := fst (app_node p l nd)). set (i := size (l :: p)).
       change (ah_post p l s true (set_head (add_redirect l1 n i) s i) i).
+      assert (Hn : n < size (l :: p)) by (apply (h0 _ _ E)).
+      assert (Hnn : resolve (l :: p) n = n) by (apply (hres _ _ E)).
+      assert (Hres : forall j, resolve (set_head (add_redirect l1 n i) s i :: p) j =
+                               if resolve (l :: p) j =? n then i else resolve (l :: p) j).
+      { intros j. rewrite !resolve_cons. unfold set_head, add_redirect, l1, app_node. cbn [l_redir fst redir_get].
+        destruct (Nat.eqb_spec (pre p j) n) as [Ep|Ep].
+        - rewrite Ep. rewrite (redir_get_nokey (l_redir l) n) by (intros v; apply (w3 _ _ v E)).
+          rewrite Nat.eqb_refl. reflexivity.
+        - destruct (Nat.eqb_spec (redir_get (l_redir l) (pre p j)) n) as [E2|E2]; [|reflexivity].
+          exfalso. destruct (redir_get_cases (l_redir l) (pre p j)) as [E3|E3]; [congruence|].
+          rewrite E2 in E3. apply (proj1 rok) in E3. lia. }
       assert (Hg : forall j, get_node (set_head (add_redirect l1 n i) s i :: p) j =
-                             if j =? n then nd else if j =? i then nd else get_node (l :: p) j).
-      { intros j. destruct (Nat.eqb_spec j n) as [->|Hjn].
-        - unfold set_head, add_redirect, l1, app_node. cbn [get_node l_redir l_nodes fst redir_get].
-          rewrite Nat.eqb_refl. unfold i. cbn [size].
+                             if resolve (l :: p) j =? n then nd else if j =? i then nd else get_node (l :: p) j).
+      { intros j. destruct (Nat.eqb_spec (resolve (l :: p) j) n) as [Ej|Ej].
+        - rewrite get_node_cons, Hres, Ej, Nat.eqb_refl. unfold i. cbn [size].
           destruct (Nat.ltb_spec (size p + length (l_nodes l)) (size p)); [lia|].
+          unfold set_head, add_redirect, l1, app_node. cbn [l_nodes fst].
           rewrite app_nth2 by lia.
           replace (size p + length (l_nodes l) - size p - length (l_nodes l)) with 0 by lia. reflexivity.
         - transitivity (get_node (l1 :: p) j).
-          + unfold set_head, add_redirect. cbn [get_node l_redir l_nodes redir_get].
-            destruct (Nat.eqb_spec j n); [contradiction|]. reflexivity.
+          + rewrite !get_node_cons, Hres.
+            change (resolve (l1 :: p) j) with (resolve (l :: p) j).
+            destruct (Nat.eqb_spec (resolve (l :: p) j) n); [contradiction|]. reflexivity.
           + unfold l1. rewrite get_node_app by exact rok. reflexivity. }
+      assert (Hgn : forall j, resolve (l :: p) j = n -> get_node (l :: p) j = get_node (l :: p) n).
+      { intros j Ej. apply get_node_same_res; [exact rok|exact Ej]. }
       assert (Hh : forall s', get_head (set_head (add_redirect l1 n i) s i :: p) s' =
                               if sig_eqb s' s then Some i else get_head (l :: p) s').
       { intros s'. rewrite get_head_set_head. reflexivity. }
       assert (Hsz : size (set_head (add_redirect l1 n i) s i :: p) = S (size (l :: p))).
       { unfold set_head, add_redirect. simpl. unfold l1. simpl. rewrite app_length. simpl. lia. }
-      assert (Hn : n < size (l :: p)) by (apply (h0 _ _ E)).
       assert (Hshape : head_shape (l :: p) s n) by (apply h1; exact E).
       assert (Hfrm : frm (l :: p) (set_head (add_redirect l1 n i) s i :: p)).
       { intros j [Hl Hf]. split; [rewrite Hsz; lia|]. rewrite Hg.
-        destruct (Nat.eqb_spec j n) as [->|].
-        - destruct (frozen_head _ _ _ Hshape Hf) as [ch' Hd]. unfold nd. rewrite Hd in Hf. exact Hf.
+        destruct (Nat.eqb_spec (resolve (l :: p) j) n) as [Ej|].
+        - rewrite (Hgn j Ej) in Hf.
+          destruct (frozen_head _ _ _ Hshape Hf) as [ch' Hd]. unfold nd. rewrite Hd in Hf. exact Hf.
         - destruct (Nat.eqb_spec j i); [unfold i in *; lia|exact Hf]. }
       assert (Hext : forall N, extN N (l :: p) (set_head (add_redirect l1 n i) s i :: p)).
       { intros N. split; [rewrite Hsz; lia|]. intros j _ [Hl Hf]. rewrite Hg.
-        destruct (Nat.eqb_spec j n) as [->|].
-        - destruct (frozen_head _ _ _ Hshape Hf) as [ch' Hd]. unfold nd, ch. rewrite Hd. reflexivity.
+        destruct (Nat.eqb_spec (resolve (l :: p) j) n) as [Ej|].
+        - rewrite (Hgn j Ej) in Hf |- *.
+          destruct (frozen_head _ _ _ Hshape Hf) as [ch' Hd]. unfold nd, ch. rewrite Hd. reflexivity.
         - destruct (Nat.eqb_spec j i); [unfold i in *; lia|reflexivity]. }
+      assert (Hri : resolve (l :: p) i = i) by (apply resolve_ge; [exact rok|unfold i; lia]).
+      assert (Hgi : get_node (set_head (add_redirect l1 n i) s i :: p) i = nd).
+      { rewrite Hg, Hri. destruct (Nat.eqb_spec i n); [reflexivity|]. rewrite Nat.eqb_refl. reflexivity. }
       assert (Hch : Forall (fr (l :: p)) ch).
       { unfold ch. destruct Hshape as [Hs|[ch' Hs]]; rewrite Hs; simpl; [constructor|].
         pose proof (cl n Hn) as Hc. rewrite Hs in Hc. exact Hc. }
@@ -219,21 +265,24 @@ Proof.
       { intros s' m Hne Hm. split.
         - intros ->. apply Hne. eapply h3; eauto.
         - apply h0 in Hm. unfold i. lia. }
+      assert (Hgo : forall s' m, s' <> s -> get_head (l :: p) s' = Some m ->
+                    get_node (set_head (add_redirect l1 n i) s i :: p) m = get_node (l :: p) m).
+      { intros s' m Hne Hm. destruct (Hother s' m Hne Hm) as [H1 H2]. rewrite Hg, (hres _ _ Hm).
+        destruct (Nat.eqb_spec m n); [contradiction|]. destruct (Nat.eqb_spec m i); [contradiction|reflexivity]. }
       unfold ah_post; splits.
       * constructor.
-        -- intros k v [Hkv|Hkv].
+        -- split; [|apply rok]. intros k v [Hkv|Hkv].
            ++ inversion Hkv; subst. rewrite Hsz. unfold i. simpl. simpl in Hn. lia.
-           ++ change (In (k, v) (l_redir l)) in Hkv. apply rok in Hkv. rewrite Hsz. simpl in *. lia.
+           ++ change (In (k, v) (l_redir l)) in Hkv. apply (proj1 rok) in Hkv. rewrite Hsz. simpl in *. lia.
         -- intros s' m Hm. rewrite Hh in Hm. rewrite Hsz. destruct (sig_eqb s' s).
            ++ inversion Hm. unfold i. lia.
            ++ apply h0 in Hm. lia.
-        -- intros s' m Hm. rewrite Hh in Hm. unfold head_shape. rewrite Hg.
+        -- intros s' m Hm. rewrite Hh in Hm. unfold head_shape.
            destruct (sig_eqb s' s) eqn:Es.
            ++ apply sig_eqb_eq in Es. subst s'. inversion Hm; subst m.
-              destruct (Nat.eqb_spec i n); [lia|]. rewrite Nat.eqb_refl. right. eexists. reflexivity.
+              rewrite Hgi. right. eexists. reflexivity.
            ++ assert (s' <> s) by (intros ->; rewrite sig_eqb_refl in Es; discriminate).
-              destruct (Hother s' m H Hm) as [H1 H2].
-              destruct (Nat.eqb_spec m n); [contradiction|]. destruct (Nat.eqb_spec m i); [contradiction|].
+              rewrite (Hgo s' m H Hm).
               apply h1. exact Hm.
         -- intros s1 s2 m H1 H2. rewrite Hh in H1, H2.
            destruct (sig_eqb s1 s) eqn:E1; destruct (sig_eqb s2 s) eqn:E2.
@@ -247,10 +296,10 @@ Proof.
               ** assert (s' <> s) by (intros ->; rewrite sig_eqb_refl in Es; discriminate).
                  destruct (Hother s' n H Hm) as [H1 _]. contradiction.
            ++ change (In (m, v) (l_redir l)) in Hin. destruct (sig_eqb s' s) eqn:Es.
-              ** inversion Hm; subst m. apply rok in Hin. unfold i in Hin. simpl in Hin. lia.
+              ** inversion Hm; subst m. apply (proj1 rok) in Hin. unfold i in Hin. simpl in Hin. lia.
               ** eapply w3; eauto.
         -- intros j Hj. rewrite Hsz in Hj. rewrite Hg.
-           destruct (Nat.eqb_spec j n).
+           destruct (Nat.eqb_spec (resolve (l :: p) j) n).
            ++ simpl. eapply Forall_impl; [|exact Hch]. apply Hfrm.
            ++ destruct (Nat.eqb_spec j i).
               ** simpl. eapply Forall_impl; [|exact Hch]. apply Hfrm.
@@ -259,15 +308,30 @@ Proof.
            ++ apply sig_eqb_eq in Es. subst s. apply fresh in E. lia.
            ++ apply fresh in Hm. lia.
         -- exact err.
+        -- intros s' m Hm. rewrite Hh in Hm. rewrite Hres. destruct (sig_eqb s' s) eqn:Es.
+           ++ inversion Hm; subst m. rewrite Hri. destruct (Nat.eqb_spec i n); [unfold i in *; lia|reflexivity].
+           ++ assert (s' <> s) by (intros ->; rewrite sig_eqb_refl in Es; discriminate).
+              destruct (Hother s' m H Hm) as [H1 H2]. rewrite (hres _ _ Hm).
+              destruct (Nat.eqb_spec m n); [contradiction|reflexivity].
+        -- intros j Hj. rewrite Hsz in Hj. rewrite Hg.
+           destruct (Nat.eqb_spec (resolve (l :: p) j) n); [exact Logic.I|].
+           destruct (Nat.eqb_spec j i); [exact Logic.I|].
+           assert (Hj' : j < size (l :: p)) by (unfold i in *; lia).
+           pose proof (hcall j Hj') as Hc. destruct (get_node (l :: p) j) as [| | | |f args dn| | | | | |]; try exact Logic.I.
+           destruct f as [f|k0]; [|exact Logic.I]. unfold call_ok in Hc |- *. destruct Hc as [h [Hc1 Hc2]]. rewrite Hh, Hres, Hc2.
+           destruct (sig_eqb (FU f, length args) s) eqn:Es.
+           ++ apply sig_eqb_eq in Es. rewrite Es, E in Hc1. inversion Hc1; subst h.
+              rewrite Nat.eqb_refl. eexists; split; reflexivity.
+           ++ assert (Hne : (FU f, length args) <> s) by (intros Hq; rewrite Hq, sig_eqb_refl in Es; discriminate).
+              destruct (Hother _ h Hne Hc1) as [H1 H2]. exists h. split; [exact Hc1|].
+              destruct (Nat.eqb_spec h n); [contradiction|reflexivity].
       * exact Hext.
       * exact Hfrm.
       * intros s'. unfold defs. rewrite Hh. destruct (sig_eqb s' s) eqn:Es.
-        -- apply sig_eqb_eq in Es. subst s'. rewrite E. rewrite Hg.
-           destruct (Nat.eqb_spec i n); [unfold i in *; lia|]. rewrite Nat.eqb_refl. reflexivity.
+        -- apply sig_eqb_eq in Es. subst s'. rewrite E. rewrite Hgi. reflexivity.
         -- destruct (get_head (l :: p) s') as [m|] eqn:Em; [|reflexivity].
            assert (s' <> s) by (intros ->; rewrite sig_eqb_refl in Es; discriminate).
-           destruct (Hother s' m H Em) as [H1 H2]. rewrite Hg.
-           destruct (Nat.eqb_spec m n); [contradiction|]. destruct (Nat.eqb_spec m i); [contradiction|reflexivity].
+           rewrite (Hgo s' m H Em). reflexivity.
       * rewrite Hh. rewrite sig_eqb_refl. reflexivity.
       * intros s' Hne _. rewrite Hh. rewrite sig_eqb_neq by exact Hne. reflexivity.
       * intros s' m Hm. rewrite Hh in Hm. destruct (sig_eqb s' s) eqn:Es.
@@ -275,7 +339,7 @@ Proof.
         -- right. exact Hm.
       * rewrite Hsz. unfold i. lia.
       * intros _. split; [unfold i; simpl; lia|].
-        right. rewrite Hg. destruct (Nat.eqb_spec i n); [unfold i in *; lia|]. rewrite Nat.eqb_refl.
+        right. rewrite Hgi.
         unfold nd, ch, defs. rewrite E. reflexivity.
       * intros Hnone. rewrite E in Hnone. discriminate.
       * rewrite Hsz. lia.
@@ -311,7 +375,7 @@ Proof.
       destruct (Nat.eqb_spec j i); [unfold i in *; lia|reflexivity]. }
     unfold ah_post; splits.
     + constructor.
-      * intros k v Hkv. change (In (k, v) (l_redir l)) in Hkv. apply rok in Hkv. rewrite Hsz. simpl in *. lia.
+      * split; [|apply rok]. intros k v Hkv. change (In (k, v) (l_redir l)) in Hkv. apply (proj1 rok) in Hkv. rewrite Hsz. simpl in *. lia.
       * intros s' m Hm. rewrite Hh in Hm. rewrite Hsz. destruct (sig_eqb s' s).
         -- inversion Hm. unfold i. lia.
         -- apply h0 in Hm. lia.
@@ -326,7 +390,7 @@ Proof.
         -- inversion H2; subst m. apply h0 in H1. unfold i in H1. lia.
         -- eapply h3; eauto.
       * intros s' m v Hm Hin. change (In (m, v) (l_redir l)) in Hin. rewrite Hh in Hm. destruct (sig_eqb s' s) eqn:Es.
-        -- inversion Hm; subst m. apply rok in Hin. unfold i in Hin. simpl in Hin. lia.
+        -- inversion Hm; subst m. apply (proj1 rok) in Hin. unfold i in Hin. simpl in Hin. lia.
         -- eapply w3; eauto.
       * intros j Hj. rewrite Hsz in Hj. rewrite Hg. destruct (Nat.eqb_spec j i).
         -- unfold nd. destruct create; simpl; auto.
@@ -335,6 +399,19 @@ Proof.
         -- apply sig_eqb_eq in Es. subst s. specialize (Hfb k a eq_refl). lia.
         -- apply fresh in Hm. lia.
       * exact err.
+      * intros s' m Hm. rewrite Hh in Hm.
+        change (resolve (set_head l1 s i :: p) m) with (resolve (l :: p) m).
+        destruct (sig_eqb s' s) eqn:Es.
+        -- inversion Hm; subst m. apply resolve_ge; [exact rok|unfold i; lia].
+        -- apply (hres _ _ Hm).
+      * intros j Hj. rewrite Hsz in Hj. rewrite Hg. destruct (Nat.eqb_spec j i).
+        -- unfold nd. destruct create; exact Logic.I.
+        -- assert (Hj' : j < size (l :: p)) by (unfold i in *; lia).
+           pose proof (hcall j Hj') as Hc. destruct (get_node (l :: p) j) as [| | | |f args dn| | | | | |]; try exact Logic.I.
+           destruct f as [f|k0]; [|exact Logic.I]. unfold call_ok in Hc |- *. destruct Hc as [h [Hc1 Hc2]]. exists h. rewrite Hh.
+           destruct (sig_eqb (FU f, length args) s) eqn:Es.
+           ++ apply sig_eqb_eq in Es. rewrite Es, E in Hc1. discriminate.
+           ++ split; [exact Hc1|exact Hc2].
     + exact Hext.
     + exact Hfrm.
     + intros s'. unfold defs. rewrite Hh. destruct (sig_eqb s' s) eqn:Es.
@@ -354,12 +431,6 @@ Proof.
 Qed.
 
 (* ------------------------------------------------------------------ _add_define_node *)
-Lemma get_node_same_target : forall p l j di, redir_ok p l -> size p <= di ->
-  redir_get (l_redir l) j = di -> get_node (l :: p) j = get_node (l :: p) di.
-Proof.
-  intros p l j di H Hd E. simpl. rewrite E. rewrite (redir_get_ge p l di H Hd). reflexivity.
-Qed.
-
 Definition is_user (s : sig) : Prop := exists f, fst s = FU f.
 
 Definition ad_post (N0 : nat) (p : chain) (l : layer) (s : sig) (c : nat) (l2 : layer) : Prop :=
@@ -382,11 +453,11 @@ Proof.
   destruct (add_head p l s true) as [l1 di].
   destruct Hah as (I1 & Hext1 & Hfrm1 & Hdefs1 & Hhead1 & Hoth1 & Hback1 & Hdi & Hcr & Hnone & Hsz1).
   destruct (Hcr eq_refl) as [Hdip Hshape].
-  pose proof I1 as I1'. destruct I1 as [rok h0 h1 h3 w3 cl fresh err].
-  assert (Hrd : redir_get (l_redir l1) di = di) by (apply (redir_get_ge p l1 di rok Hdip)).
+  pose proof I1 as I1'. destruct I1 as [rok h0 h1 h3 w3 cl fresh err hres hcall].
+  assert (Hrd : resolve (l1 :: p) di = di) by (rewrite resolve_cons, pre_ge by exact Hdip; apply (redir_get_ge p l1 di rok Hdip)).
   set (NEW := NDefine (fst s) (snd s) (defs (l :: p) s ++ [c])).
   assert (Hres : match get_node (l1 :: p) di with
-                 | NDefine f a ch => set_node p l1 (redir_get (l_redir l1) di) (NDefine f a (ch ++ [c]))
+                 | NDefine f a ch => set_node p l1 (resolve (l1 :: p) di) (NDefine f a (ch ++ [c]))
                  | NEmpty => set_node p l1 di (NDefine (fst s) (snd s) [c])
                  | _ => mkL (l_nodes l1) (l_heads l1) (l_redir l1) true
                  end = set_node p l1 di NEW).
@@ -396,7 +467,7 @@ Proof.
     - rewrite Hrd. reflexivity. }
   rewrite Hres. clear Hres.
   set (l2 := set_node p l1 di NEW).
-  assert (Hg : forall j, get_node (l2 :: p) j = if redir_get (l_redir l1) j =? di then NEW else get_node (l1 :: p) j).
+  assert (Hg : forall j, get_node (l2 :: p) j = if resolve (l1 :: p) j =? di then NEW else get_node (l1 :: p) j).
   { intros j. unfold l2. apply get_node_set; [exact rok|lia]. }
   assert (Hsz : size (l2 :: p) = size (l1 :: p)) by (apply size_set).
   assert (Hh : forall s', get_head (l2 :: p) s' = get_head (l1 :: p) s') by (intros; apply get_head_set).
@@ -404,13 +475,13 @@ Proof.
   { destruct Hshape as [Hs|Hs]; [left|right; eexists]; exact Hs. }
   assert (Hfrm2 : frm (l1 :: p) (l2 :: p)).
   { intros j [Hl Hf]. split; [rewrite Hsz; exact Hl|]. rewrite Hg.
-    destruct (Nat.eqb_spec (redir_get (l_redir l1) j) di) as [Ej|Ej]; [|exact Hf].
-    rewrite (get_node_same_target p l1 j di rok Hdip Ej) in Hf.
+    destruct (Nat.eqb_spec (resolve (l1 :: p) j) di) as [Ej|Ej]; [|exact Hf].
+    rewrite (get_node_same_res (l1 :: p) j di rok Ej) in Hf.
     destruct Hdi1 as [Hs|[ch Hs]]; rewrite Hs in Hf; [discriminate|]. exact Hf. }
-  assert (Hoth : forall s' m, s' <> s -> get_head (l1 :: p) s' = Some m -> redir_get (l_redir l1) m <> di).
-  { intros s' m Hne Hm. destruct (redir_get_cases (l_redir l1) m) as [Ec|Ec].
-    - rewrite Ec. intros ->. apply Hne. eapply h3; eauto.
-    - exfalso. eapply w3; eauto. }
+  assert (Hoth : forall s' m, s' <> s -> get_head (l1 :: p) s' = Some m -> resolve (l1 :: p) m <> di).
+  { intros s' m Hne Hm. rewrite (hres _ _ Hm). intros ->. apply Hne. eapply h3; eauto. }
+  assert (Hr2 : forall j, resolve (l2 :: p) j = resolve (l1 :: p) j).
+  { intros j. apply resolve_same_redir. unfold l2. apply redir_set. }
   assert (Hcfr : fr (l1 :: p) c) by (apply Hfrm1; exact Hc).
   assert (Hchildren : Forall (fr (l2 :: p)) (defs (l :: p) s ++ [c])).
   { apply Forall_app. split.
@@ -421,10 +492,10 @@ Proof.
     - constructor; [|constructor]. apply Hfrm2. exact Hcfr. }
   unfold ad_post; splits.
   - constructor.
-    + intros k v Hkv. unfold l2 in Hkv. rewrite redir_set in Hkv. apply rok in Hkv. rewrite Hsz. exact Hkv.
+    + split; [|apply rok]. intros k v Hkv. unfold l2 in Hkv. rewrite redir_set in Hkv. apply (proj1 rok) in Hkv. rewrite Hsz. exact Hkv.
     + intros s' m Hm. rewrite Hh in Hm. rewrite Hsz. eapply h0; eauto.
     + intros s' m Hm. rewrite Hh in Hm. unfold head_shape. rewrite Hg.
-      destruct (Nat.eqb_spec (redir_get (l_redir l1) m) di) as [Ej|Ej].
+      destruct (Nat.eqb_spec (resolve (l1 :: p) m) di) as [Ej|Ej].
       * destruct (sig_eqb s' s) eqn:Es.
         -- apply sig_eqb_eq in Es. subst s'. right. eexists. reflexivity.
         -- exfalso. eapply (Hoth s' m); eauto. intros ->. rewrite sig_eqb_refl in Es. discriminate.
@@ -432,28 +503,32 @@ Proof.
     + intros s1 s2 m. rewrite !Hh. apply h3.
     + intros s' m v Hm. rewrite Hh in Hm. unfold l2. rewrite redir_set. eapply w3; eauto.
     + intros j Hj. rewrite Hsz in Hj. rewrite Hg.
-      destruct (Nat.eqb_spec (redir_get (l_redir l1) j) di).
+      destruct (Nat.eqb_spec (resolve (l1 :: p) j) di).
       * exact Hchildren.
       * eapply ok_node_frm; [exact Hfrm2|]. apply cl. exact Hj.
     + intros k a m Hm. rewrite Hh in Hm. rewrite Hsz. eapply fresh; eauto.
     + unfold l2. rewrite err_set by exact Hdip. exact err.
+    + intros s' m Hm. rewrite Hh in Hm. rewrite Hr2. apply (hres _ _ Hm).
+    + intros j Hj. rewrite Hsz in Hj. rewrite Hg.
+      destruct (Nat.eqb_spec (resolve (l1 :: p) j) di); [exact Logic.I|].
+      eapply call_ok_ext; [exact Hh|exact Hr2|]. apply hcall. exact Hj.
   - intros Hcase. eapply extN_trans; [apply Hext1|].
     split; [rewrite Hsz; lia|]. intros j Hj [Hl Hf]. rewrite Hg.
-    destruct (Nat.eqb_spec (redir_get (l_redir l1) j) di) as [Ej|Ej]; [|reflexivity].
-    exfalso. rewrite (get_node_same_target p l1 j di rok Hdip Ej) in Hf.
+    destruct (Nat.eqb_spec (resolve (l1 :: p) j) di) as [Ej|Ej]; [|reflexivity].
+    exfalso. rewrite (get_node_same_res (l1 :: p) j di rok Ej) in Hf.
     destruct Hdi1 as [Hs|[ch Hs]]; rewrite Hs in Hf; [discriminate|].
     destruct Hcase as [[f Hu]|Hnn].
     + rewrite Hu in Hf. discriminate.
     + destruct (Hnone Hnn) as [Hdi0 [Hsz0 Hred0]].
-      destruct (redir_get_cases (l_redir l1) j) as [Ec|Ec].
-      * rewrite Ec in Ej. lia.
-      * rewrite Ej in Ec. (* a key mapping to the fresh position: impossible, keys point below the old size or are new *)
-        pose proof (I_rok _ _ I) as rok0. rewrite Hred0 in Ec. apply rok0 in Ec. lia.
+      (* nothing old resolves to the fresh position *)
+      pose proof (I_rok _ _ I) as rok0.
+      rewrite (resolve_same_redir l l1 p j Hred0) in Ej.
+      assert (Hl0 : j < size (l :: p)) by lia. pose proof (resolve_lt (l :: p) j rok0 Hl0). lia.
   - eapply frm_trans; eauto.
   - unfold defs. rewrite Hh, Hhead1, Hg, Hrd, Nat.eqb_refl. reflexivity.
   - intros s' Hne. rewrite <- Hdefs1. unfold defs. rewrite Hh.
     destruct (get_head (l1 :: p) s') as [m|] eqn:Em; [|reflexivity].
-    rewrite Hg. destruct (Nat.eqb_spec (redir_get (l_redir l1) m) di) as [Ej|Ej]; [|reflexivity].
+    rewrite Hg. destruct (Nat.eqb_spec (resolve (l1 :: p) m) di) as [Ej|Ej]; [|reflexivity].
     exfalso. eapply (Hoth s' m); eauto.
   - rewrite Hsz. exact Hsz1.
   - intros Hnn. destruct (Hnone Hnn) as [Hdi0 [Hsz0 Hred0]]. rewrite Hsz, Hh. split; [exact Hsz0|]. rewrite Hhead1, Hdi0. reflexivity.
